@@ -17,5 +17,6 @@ CONSTANTS
   MaxFrames = 2
   RawOps = FALSE
   CallOps = TRUE
+  Emitting = TRUE
   StopOps = TRUE
   MaxUsed = 16
